@@ -4,11 +4,15 @@
    flush (forced or threshold driven, with any observed memory size) / staging ops) and every completion timing and
    outcome of the flush function (OComplete ops and the wait-outcomes carried by OFlush / OFlushWait). *)
 From Verif Require Import Base.Lex Pipelined.Model Pipelined.ProofsBuf Pipelined.ProofsShape Pipelined.ProofsRead
-  Pipelined.ProofsBatch Pipelined.ProofsOnce Pipelined.ProofsErr Pipelined.ProofsCommit Pipelined.ProofsBounds Pipelined.ProofsRange.
+  Pipelined.ProofsBatch Pipelined.ProofsOnce Pipelined.ProofsErr Pipelined.ProofsCommit Pipelined.ProofsBounds Pipelined.ProofsRange
+  Pipelined.ProofsDyn Pipelined.ProofsPrimary.
 
 (* Get and BatchGet return the latest value the transaction wrote (rmap (rrun ops): one plain map with staging
    snapshots), wherever it lives — mutable buffer, flushing buffer, batch-get cache, store tier; a delete is returned
-   as the tombstone [] and never as an older value; absent = never written. Holds as long as no flush has failed. *)
+   as the tombstone [] and never as an older value; absent = never written. Holds as long as no flush has failed.
+   The window in which a flush is in flight is explicit: OStoreStep i lets the i-th mutation of the buffer in flight reach
+   the store (any order, any repetition, interleaved with every other op) between "flush started" (OFlush) and "flush
+   acknowledged" (OComplete / the wait outcome), so the statement covers every interleaving of writer and flusher. *)
 Theorem C16_read_latest : forall P ops,
   closed (run P ops) = false ->
   let s := run P ops in
@@ -89,6 +93,50 @@ Proof.
 Qed.
 Print Assumptions C16_resolve_covers.
 
+(* The same when the region layout changes while the range task runs (splits and merges between any two steps of the
+   partition loop and of the handlers, concurrent workers each with its own view): whatever regions the environment
+   serves — each one contains the key probed at that moment — once the task succeeds (resolved_seq = Some served)
+   every flushed key lies in a region that served a ResolveLock after all flushes were done. *)
+Theorem C16_resolve_covers_dynamic : forall P ops envs served,
+  forallb op_keys_ok ops = true ->
+  let s := run P ops in
+  resolved_seq envs (pstart s) (pend s) = Some served ->
+  (forall k, In k (flushed_keys s) -> exists r, In r served /\ rcontains r k = true) /\
+  served_covers served (flushed_keys s) = true.
+Proof.
+  intros P ops envs served Hok s Hres. pose proof (binv_run P ops Hok) as [_ _ Hb].
+  assert (G : forall k, In k (flushed_keys s) -> exists r, In r served /\ rcontains r k = true).
+  { intros k Hk. destruct (Hb k Hk) as (_ & _ & C & D). eapply resolved_seq_covers; eassumption. }
+  split; [exact G|]. unfold served_covers. apply forallb_forall. intros k Hk.
+  destruct (G k Hk) as (r & Hin & Hc). apply existsb_exists. exists r; split; assumption.
+Qed.
+Print Assumptions C16_resolve_covers_dynamic.
+
+(* One primary for all generations: it is chosen by the first flush that is sent, is one of the flushed keys (so the
+   resolve range covers it) and never changes afterwards. If the client disappears before the commit point, whatever
+   subset of the flushed locks exists and in whatever order other clients meet them, nothing is ever committed, the
+   status can only become "rolled back", every lock a resolver meets is removed as rolled back, and no other key is
+   touched (together with C16_flush_error_fails_txn: the primary is committed only after every generation is stored,
+   so no generation is ever partially committed). *)
+Theorem C16_crash_recoverable : forall P ops,
+  forallb op_keys_ok ops = true ->
+  let s := run P ops in
+  (flushed_keys s <> [] -> primary s <> [] /\ In (primary s) (flushed_keys s)) /\
+  (forall ops', primary s <> [] -> primary (run_from P s ops') = primary s) /\
+  (forall locks ks, (forall k, In k locks -> In k (flushed_keys s)) ->
+     let c := crun (crash_state locks) ks in
+     ccommitted c = [] /\ cstat c <> PCommitted /\
+     (forall k, In k locks -> In k ks -> ~ In k (clocks c) /\ In k (crolled c)) /\
+     (forall k, In k (clocks c) -> In k (flushed_keys s))).
+Proof.
+  intros P ops Hok s. destruct (pinv_run P ops Hok) as [H1 H2]. split; [|split].
+  - intros Hne. split; [apply H1; exact Hne|apply H2, H1, Hne].
+  - intros ops' Hp. apply primary_stable; exact Hp.
+  - intros locks ks Hsub. destruct (crash_resolvers locks ks) as (A & B & C & D).
+    repeat split; try assumption; try (apply C; assumption). intros k Hk. apply Hsub, D, Hk.
+Qed.
+Print Assumptions C16_crash_recoverable.
+
 (* Regression witnesses for the formula before a4a602e ([pipelinedStart, pipelinedEnd) with the largest key exclusive). *)
 Definition P0 := {| minkeys := 0; minsize := 0; forcesize := 0 |}.
 Definition k1 : key := [107; 49].   (* "k1" *)
@@ -136,4 +184,26 @@ Example resolve_covers_nonvacuous :
   let s := run P0 [OSet k5 v1; OSet k1 v1; OFlush true 0 true] in
   flushed_keys s = [k1; k5] /\ resolved_regions [k5] (pstart s) (pend s) = [0%nat; 1%nat] /\
   resolved_regions [] k1 k1 = [0%nat].
+Proof. vm_compute. repeat split. Qed.
+
+(* a split of the region under the handler (k1..k5 in one region when the task is cut, split at k3 before it is served) and
+   a later merge: the task still succeeds and covers both keys *)
+Example resolve_dynamic_nonvacuous :
+  let s := run P0 [OSet k5 v1; OSet k1 v1; OFlush true 0 true] in
+  let k3 : key := [107; 51] in
+  resolved_seq [(([], None), [(([], Some k3)); ((k3, None))])] (pstart s) (pend s) = Some [([], Some k3); (k3, None)] /\
+  served_covers [([], Some k3); (k3, None)] (flushed_keys s) = true /\
+  resolved_seq [(([], Some k3), [(([], Some k3))]); ((k3, None), [((k1, None))])] (pstart s) (pend s) = Some [([], Some k3); (k1, None)].
+Proof. vm_compute. repeat split. Qed.
+
+Example store_step_nonvacuous :
+  let ops := [OSet k1 v1; OFlush true 0 true; OSet k1 [119]; OFlush true 0 true; OStoreStep 0; OGet k1; OBatchGet [k1]] in
+  closed (run P0 ops) = false /\ lookup k1 (store (run P0 ops)) = Some [119] /\ inflight (run P0 ops) = true /\
+  fst (get (run P0 ops) k1) = Some [119].
+Proof. vm_compute. repeat split. Qed.
+
+Example crash_nonvacuous :
+  let s := run P0 [OSet k5 v1; OSet k1 v1; OFlush true 0 true; OComplete true; OSet k5 [119]; OFlush true 0 true] in
+  primary s = k1 /\ flushed_keys s = [k1; k5; k5] /\
+  clocks (crun (crash_state [k1; k5]) [k5; k1]) = [] /\ crolled (crun (crash_state [k1; k5]) [k5; k1]) = [k1; k5].
 Proof. vm_compute. repeat split. Qed.
